@@ -119,7 +119,7 @@ func ruleC01(r *Report) {
 	r.Trusted("goxmldsig v1.4.0 (Validate recomputes the digest over exactly the element passed; canonicalisation; reference resolution)", "etree v1.5.0", "xml-roundtrip-validator v0.1.0", "encoding/xml")
 	r.NotDecided("that goxmldsig's Validate is correct; parser differentials not caught by the round-trip validator; that the configured certificates are the IdP's")
 	r.Rule("C01.sigtoken", "the 'signature not required' token is introduced only under the nil edge of the signature validator applied to an enclosing element, forwarded unchanged otherwise, and the assertion is unmarshalled only under (token == required => validator(el) == nil) for the very element that is unmarshalled", 4)
-	r.Rule("C01.sameel", "elements handed to an unmarshal helper are the verified element itself, results of the namespace-aware finders, Root() of a validated document, or the decrypt step's result — never etree path queries", 5)
+	r.Rule("C01.sameel", "elements handed to an unmarshal helper are the verified element itself, results of the namespace-aware finders, Root() of a validated document, or the decrypt step's result — never etree path queries", 3)
 	r.Rule("C01.validate-result", "the signature validator succeeds only under the nil edge of dsig Validate (or by delegating to the configured SignatureVerifier hook); 'not present' is returned only when no Signature child exists", 1)
 	r.Rule("C01.roots", "trusted roots derive only from SP configuration: signing-use (or unspecified-use) KeyDescriptors of IDPMetadata, the fingerprint-matched certificate, or the pinned certificate", 3)
 	r.Rule("C01.nsmatch", "the namespace-aware finder returns a child only if both its tag and its resolved namespace equal the requested ones", 1)
@@ -416,7 +416,7 @@ func elementSource(p *Prog, fc *FuncCtx, v ssa.Value, sr *sigRoles, depth int) (
 				idx = i
 			}
 		}
-		sites := p.StaticCallersOf(fn)
+		sites := p.CallersOf(fn)
 		if len(sites) == 0 {
 			return "parameter of an entry point", fn.Object() != nil && !fn.Object().Exported()
 		}
@@ -425,7 +425,11 @@ func elementSource(p *Prog, fc *FuncCtx, v ssa.Value, sr *sigRoles, depth int) (
 				continue
 			}
 			cfc := fc.A.Ctx(cs.Caller)
-			s, ok := elementSource(p, cfc, cs.Instr.Common().Args[idx], sr, depth+1)
+			arg := cs.Arg(idx)
+			if arg == nil {
+				return "unresolved argument (via " + p.FnName(cs.Caller) + ")", false
+			}
+			s, ok := elementSource(p, cfc, arg, sr, depth+1)
 			if !ok {
 				return s + " (via " + p.FnName(cs.Caller) + ")", false
 			}
@@ -443,6 +447,24 @@ func elementSource(p *Prog, fc *FuncCtx, v ssa.Value, sr *sigRoles, depth int) (
 			return "result of the namespace-aware finder " + shortFn(scf), true
 		case sr.Decrypt[scf]:
 			return "result of the decrypt step " + shortFn(scf), true
+		}
+		// a module helper that hands back an element: every element it returns must be an allowed one
+		if p.InModule(scf) && len(scf.Blocks) > 0 && scf.Signature.Results().Len() >= 1 && typeIs(scf.Signature.Results().At(0).Type(), "github.com/beevik/etree", "Element") {
+			sub := fc.A.Ctx(scf)
+			n := 0
+			for _, ret := range sub.Returns() {
+				rv := Resolve(ret.Results[0])
+				if isNilConst(rv) {
+					continue
+				}
+				n++
+				if s, ok := elementSource(p, sub, rv, sr, depth+1); !ok {
+					return "result of " + shortFn(scf) + ": " + s, false
+				}
+			}
+			if n > 0 {
+				return "result of " + shortFn(scf) + " (returns only allowed elements)", true
+			}
 		}
 		return "result of " + shortFn(scf), false
 	case *ssa.Extract:
@@ -534,63 +556,140 @@ func checkRoots(r *Report, m *spModel, sr *sigRoles) { checkRootsAs(r, m, sr, "C
 
 func checkRootsAs(r *Report, m *spModel, sr *sigRoles, rule string) {
 	p := m.P
-	for _, fn := range sr.Validators {
-		a := NewAnalysis(p)
-		B := a.B
+	a := NewAnalysis(p)
+	isCertSlice := func(t types.Type) bool {
+		return types.TypeString(t, nil) == "[]*crypto/x509.Certificate"
+	}
+	// delegates: a module function whose returned certificates come from other module functions (a selector that
+	// picks one of the configured sources) is looked through; the functions it delegates to are the sources
+	var judge func(fn *ssa.Function, lf ssa.Value, at ssa.Instruction, depth int)
+	judge = func(fn *ssa.Function, lf ssa.Value, at ssa.Instruction, depth int) {
 		fc := a.Ctx(fn)
-		fc.ensureConds()
-		// the Roots field store
+		cons := fmt.Sprintf("%s: trusted root source %s", p.FnName(fn), fc.AP(lf))
+		if depth > 4 {
+			r.Bad(rule, cons, p.InstrPos(at), "trusted roots could not be traced to a configuration-derived certificate function (call chain too deep)")
+			return
+		}
+		switch x := lf.(type) {
+		case *ssa.Const:
+			r.Trivial(rule, cons, p.InstrPos(at), "nil")
+		case *ssa.Parameter:
+			// the store sits in a helper that is handed the certificates: every caller's argument is judged
+			idx := -1
+			for i, q := range fn.Params {
+				if q == x {
+					idx = i
+				}
+			}
+			sites := p.CallersOf(fn)
+			if idx < 0 || len(sites) == 0 || (fn.Object() != nil && fn.Object().Exported()) {
+				r.Bad(rule, cons, p.InstrPos(at), "trusted roots are a parameter of an entry point")
+				return
+			}
+			for _, cs := range sites {
+				arg := cs.Arg(idx)
+				if arg == nil {
+					r.Bad(rule, cons, p.InstrPos(at), "trusted roots are passed through a call that could not be resolved")
+					continue
+				}
+				r.Fn(p.FnName(cs.Caller))
+				for _, l2 := range rootLeaves(arg, map[ssa.Value]bool{}) {
+					judge(cs.Caller, l2, cs.Instr.(ssa.Instruction), depth+1)
+				}
+			}
+		case *ssa.Extract:
+			call, _ := x.Tuple.(*ssa.Call)
+			if call == nil || call.Call.StaticCallee() == nil {
+				r.Bad(rule, cons, p.InstrPos(at), "root certificates come from a dynamic call")
+				return
+			}
+			src := call.Call.StaticCallee()
+			if p.InModule(src) && len(src.Blocks) > 0 {
+				// a selector: its results come from other module functions returning certificates
+				var sub []ssa.Value
+				delegates := false
+				for _, ret := range a.Ctx(src).Returns() {
+					if x.Index >= len(ret.Results) {
+						continue
+					}
+					for _, l2 := range rootLeaves(Resolve(ret.Results[x.Index]), map[ssa.Value]bool{}) {
+						sub = append(sub, l2)
+						if ex, ok := l2.(*ssa.Extract); ok {
+							if c2, ok := ex.Tuple.(*ssa.Call); ok {
+								if s2 := c2.Call.StaticCallee(); s2 != nil && p.InModule(s2) && s2.Signature.Results().Len() > ex.Index && isCertSlice(s2.Signature.Results().At(ex.Index).Type()) && isCertSlice(x.Type()) {
+									delegates = true
+								}
+							}
+						}
+					}
+				}
+				if delegates {
+					r.Fn(p.FnName(src))
+					for _, l2 := range sub {
+						judge(src, l2, call, depth+1)
+					}
+					return
+				}
+			}
+			kind := classifyCertSource(p, src)
+			switch kind {
+			case "metadata":
+				r.OK(rule, cons, p.InstrPos(call), "IdP metadata key descriptors ("+shortFn(src)+")")
+				checkMetadataCerts(r, p, src, rule)
+			case "fingerprint":
+				r.OK(rule, cons, p.InstrPos(call), "certificate matched against the configured fingerprint ("+shortFn(src)+")")
+				checkFingerprint(r, p, src, rule)
+			case "parse":
+				// argument must be the pinned certificate from configuration
+				arg := call.Call.Args[0]
+				ap := fc.AP(arg)
+				r.Check(strings.HasSuffix(ap, "ServiceProvider.IDPCertificate"), rule, cons, p.InstrPos(call), "parsed from the pinned sp.IDPCertificate", "a certificate parsed from "+ap+" (not SP configuration) becomes a trusted root")
+			default:
+				r.Bad(rule, cons, p.InstrPos(call), "trusted roots come from "+shortFn(src)+", which is none of the three configuration-derived sources")
+			}
+		default:
+			r.Bad(rule, cons, p.InstrPos(at), "trusted roots have a source that is not a configuration-derived certificate function")
+		}
+	}
+	for _, v := range sr.Validators {
+		// the Roots field store: in the validator or in a helper it calls (bound 2)
+		region := []*ssa.Function{v}
+		seen := map[*ssa.Function]bool{v: true}
+		for i := 0; i < len(region) && i < 32; i++ {
+			for _, b := range region[i].Blocks {
+				for _, in := range b.Instrs {
+					if ci, ok := in.(ssa.CallInstruction); ok {
+						if sc := ci.Common().StaticCallee(); sc != nil && p.InModule(sc) && !seen[sc] && len(sc.Blocks) > 0 && (sc.Object() == nil || !sc.Object().Exported()) && sc.Pkg == v.Pkg {
+							seen[sc] = true
+							region = append(region, sc)
+						}
+					}
+				}
+			}
+		}
 		n := 0
-		for _, b := range fn.Blocks {
-			for _, in := range b.Instrs {
-				st, ok := in.(*ssa.Store)
-				if !ok {
-					continue
-				}
-				fa, ok := st.Addr.(*ssa.FieldAddr)
-				if !ok || !typeIs(fa.X.Type(), dsigPath, "MemoryX509CertificateStore") || fieldName(fa.X.Type(), fa.Field) != "Roots" {
-					continue
-				}
-				n++
-				leaves := rootLeaves(st.Val, map[ssa.Value]bool{})
-				for _, lf := range leaves {
-					cons := fmt.Sprintf("%s: trusted root source %s", p.FnName(fn), fc.AP(lf))
-					switch x := lf.(type) {
-					case *ssa.Const:
-						r.Trivial(rule, cons, p.InstrPos(st), "nil")
-					case *ssa.Extract:
-						call, _ := x.Tuple.(*ssa.Call)
-						if call == nil || call.Call.StaticCallee() == nil {
-							r.Bad(rule, cons, p.InstrPos(st), "root certificates come from a dynamic call")
-							continue
-						}
-						src := call.Call.StaticCallee()
-						kind := classifyCertSource(p, src)
-						switch kind {
-						case "metadata":
-							r.OK(rule, cons, p.InstrPos(call), "IdP metadata key descriptors ("+shortFn(src)+")")
-							checkMetadataCerts(r, p, src, rule)
-						case "fingerprint":
-							r.OK(rule, cons, p.InstrPos(call), "certificate matched against the configured fingerprint ("+shortFn(src)+")")
-							checkFingerprint(r, p, src, rule)
-						case "parse":
-							// argument must be the pinned certificate from configuration
-							arg := call.Call.Args[0]
-							ap := fc.AP(arg)
-							r.Check(strings.HasSuffix(ap, "ServiceProvider.IDPCertificate"), rule, cons, p.InstrPos(call), "parsed from the pinned sp.IDPCertificate", "a certificate parsed from "+ap+" (not SP configuration) becomes a trusted root")
-						default:
-							r.Bad(rule, cons, p.InstrPos(call), "trusted roots come from "+shortFn(src)+", which is none of the three configuration-derived sources")
-						}
-					default:
-						r.Bad(rule, cons, p.InstrPos(st), "trusted roots have a source that is not a configuration-derived certificate function")
+		for _, fn := range region {
+			for _, b := range fn.Blocks {
+				for _, in := range b.Instrs {
+					st, ok := in.(*ssa.Store)
+					if !ok {
+						continue
+					}
+					fa, ok := st.Addr.(*ssa.FieldAddr)
+					if !ok || !typeIs(fa.X.Type(), dsigPath, "MemoryX509CertificateStore") || fieldName(fa.X.Type(), fa.Field) != "Roots" {
+						continue
+					}
+					n++
+					r.Fn(p.FnName(fn))
+					for _, lf := range rootLeaves(st.Val, map[ssa.Value]bool{}) {
+						judge(fn, lf, st, 0)
 					}
 				}
 			}
 		}
 		if n == 0 {
-			r.Undecided(rule, p.FnName(fn)+": Roots of the certificate store", p.Pos(fn.Pos()), "no store to MemoryX509CertificateStore.Roots found")
+			r.Undecided(rule, p.FnName(v)+": Roots of the certificate store", p.Pos(v.Pos()), "no store to MemoryX509CertificateStore.Roots found")
 		}
-		_ = B
 	}
 }
 
@@ -639,14 +738,16 @@ func classifyCertSource(p *Prog, fn *ssa.Function) string {
 		return ""
 	}
 	readsKD, readsFP := false, false
-	for _, b := range fn.Blocks {
-		for _, in := range b.Instrs {
-			if fa, ok := in.(*ssa.FieldAddr); ok {
-				switch fieldName(fa.X.Type(), fa.Field) {
-				case "KeyDescriptors":
-					readsKD = true
-				case "IDPCertificateFingerprint":
-					readsFP = true
+	for _, f := range helperRegion(p, fn, 2) {
+		for _, b := range f.Blocks {
+			for _, in := range b.Instrs {
+				if fa, ok := in.(*ssa.FieldAddr); ok {
+					switch fieldName(fa.X.Type(), fa.Field) {
+					case "KeyDescriptors":
+						readsKD = true
+					case "IDPCertificateFingerprint":
+						readsFP = true
+					}
 				}
 			}
 		}
@@ -665,71 +766,107 @@ func classifyCertSource(p *Prog, fn *ssa.Function) string {
 
 // checkMetadataCerts: every append to the certificate-string accumulator is under Use in {"", "signing"},
 // and the strings come from X509Certificates of KeyDescriptors of IDPSSODescriptors of sp.IDPMetadata.
-func checkMetadataCerts(r *Report, p *Prog, fn *ssa.Function, rule string) {
+func checkMetadataCerts(r *Report, p *Prog, top *ssa.Function, rule string) {
 	a := NewAnalysis(p)
 	B := a.B
-	fc := a.Ctx(fn)
-	fc.ensureConds()
-	r.Fn(p.FnName(fn))
 	n := 0
-	for _, b := range fn.Blocks {
-		for _, in := range b.Instrs {
-			c, ok := in.(*ssa.Call)
-			if !ok {
-				continue
-			}
-			bi, ok := c.Call.Value.(*ssa.Builtin)
-			if !ok || bi.Name() != "append" || types.TypeString(c.Type(), nil) != "[]string" {
-				continue
-			}
-			n++
-			av := appendedValue(c)
-			ap := ""
-			if av != nil {
-				ap = fc.AP(av)
-			}
-			cons := fmt.Sprintf("%s: certificate string appended (%s)", p.FnName(fn), ap)
-			// Use guard
-			var useEmpty, useSigning string
-			other := []string{}
-			for _, name := range B.Support(fc.Cond(b)) {
-				ai := a.Atoms[name]
-				if ai == nil {
+	// the strings may be collected by an unexported helper of the source function
+	for _, fn := range helperRegion(p, top, 2) {
+		fc := a.Ctx(fn)
+		fc.ensureConds()
+		r.Fn(p.FnName(fn))
+		for _, b := range fn.Blocks {
+			for _, in := range b.Instrs {
+				c, ok := in.(*ssa.Call)
+				if !ok {
 					continue
 				}
-				if ai.Kind == "empty" && strings.HasSuffix(ai.Args[0], ".Use") {
-					useEmpty = name
+				bi, ok := c.Call.Value.(*ssa.Builtin)
+				if !ok || bi.Name() != "append" || types.TypeString(c.Type(), nil) != "[]string" {
+					continue
 				}
-				if ai.Kind == "eq" && (strings.HasSuffix(ai.Args[0], ".Use") || strings.HasSuffix(ai.Args[1], ".Use")) {
-					if strings.Contains(name, `c:"signing"`) {
-						useSigning = name
-					} else {
-						other = append(other, name)
+				n++
+				av := appendedValue(c)
+				ap := ""
+				if av != nil {
+					ap = fc.AP(av)
+				}
+				cons := fmt.Sprintf("%s: certificate string appended (%s)", p.FnName(fn), ap)
+				// Use guard
+				var useEmpty, useSigning string
+				other := []string{}
+				for _, name := range B.Support(fc.Cond(b)) {
+					ai := a.Atoms[name]
+					if ai == nil {
+						continue
+					}
+					if ai.Kind == "empty" && strings.HasSuffix(ai.Args[0], ".Use") {
+						useEmpty = name
+					}
+					if ai.Kind == "eq" && (strings.HasSuffix(ai.Args[0], ".Use") || strings.HasSuffix(ai.Args[1], ".Use")) {
+						if strings.Contains(name, `c:"signing"`) {
+							useSigning = name
+						} else {
+							other = append(other, name)
+						}
 					}
 				}
-			}
-			allowed := B.False
-			if useEmpty != "" {
-				allowed = B.Or(allowed, B.Var(useEmpty))
-			}
-			if useSigning != "" {
-				allowed = B.Or(allowed, B.Var(useSigning))
-			}
-			okUse := allowed != B.False && fc.Implied(b, allowed)
-			okSrc := strings.Contains(ap, "ServiceProvider.IDPMetadata.IDPSSODescriptors[*]") && strings.Contains(ap, "KeyDescriptors[*].KeyInfo.X509Data.X509Certificates[*].Data")
-			switch {
-			case !okUse:
-				r.Bad(rule, cons, p.InstrPos(in), fmt.Sprintf("a key descriptor's certificate becomes a trusted signing root although its use is not restricted to \"\"/\"signing\" (other use comparisons on the path: %v)", other))
-			case !okSrc:
-				r.Bad(rule, cons, p.InstrPos(in), "the certificate string does not come from X509Certificates of a KeyDescriptor of the configured IdP metadata")
-			default:
-				r.OK(rule, cons, p.InstrPos(in), "under use == \"\" or use == \"signing\"; from the configured IdP metadata")
+				allowed := B.False
+				if useEmpty != "" {
+					allowed = B.Or(allowed, B.Var(useEmpty))
+				}
+				if useSigning != "" {
+					allowed = B.Or(allowed, B.Var(useSigning))
+				}
+				okUse := allowed != B.False && fc.Implied(b, allowed)
+				okSrc := strings.Contains(ap, "ServiceProvider.IDPMetadata.IDPSSODescriptors[*]") && strings.Contains(ap, "KeyDescriptors[*].KeyInfo.X509Data.X509Certificates[*].Data")
+				switch {
+				case !okUse:
+					r.Bad(rule, cons, p.InstrPos(in), fmt.Sprintf("a key descriptor's certificate becomes a trusted signing root although its use is not restricted to \"\"/\"signing\" (other use comparisons on the path: %v)", other))
+				case !okSrc:
+					r.Bad(rule, cons, p.InstrPos(in), "the certificate string does not come from X509Certificates of a KeyDescriptor of the configured IdP metadata")
+				default:
+					r.OK(rule, cons, p.InstrPos(in), "under use == \"\" or use == \"signing\"; from the configured IdP metadata")
+				}
 			}
 		}
 	}
 	if n == 0 {
-		r.Undecided(rule, p.FnName(fn)+": accumulator", p.Pos(fn.Pos()), "no append of certificate strings found")
+		r.Undecided(rule, p.FnName(top)+": accumulator", p.Pos(top.Pos()), "no append of certificate strings found")
 	}
+}
+
+// helperRegion: fn and the unexported functions of its package that it calls statically, to the given depth
+// (a block of fn moved into a helper stays inside the region).
+func helperRegion(p *Prog, fn *ssa.Function, depth int) []*ssa.Function {
+	out := []*ssa.Function{fn}
+	seen := map[*ssa.Function]bool{fn: true}
+	level := []*ssa.Function{fn}
+	for d := 0; d < depth; d++ {
+		var next []*ssa.Function
+		for _, f := range level {
+			for _, b := range f.Blocks {
+				for _, in := range b.Instrs {
+					ci, ok := in.(ssa.CallInstruction)
+					if !ok {
+						continue
+					}
+					sc := ci.Common().StaticCallee()
+					if sc == nil || seen[sc] || !p.InModule(sc) || len(sc.Blocks) == 0 || sc.Pkg != fn.Pkg {
+						continue
+					}
+					if sc.Object() != nil && sc.Object().Exported() {
+						continue
+					}
+					seen[sc] = true
+					out = append(out, sc)
+					next = append(next, sc)
+				}
+			}
+		}
+		level = next
+	}
+	return out
 }
 
 // checkFingerprint: success return under *sp.IDPCertificateFingerprint == fingerprint(cert, ...) for the returned cert.
@@ -838,27 +975,27 @@ func checkSamePath(r *Report, m *spModel, sr *sigRoles) {
 	rule := "C01.samepath"
 	a := NewAnalysis(p)
 	n := 0
-	for _, cs := range p.StaticCallersOf(m.AssertFn) {
+	for _, cs := range p.CallersOf(m.AssertFn) {
 		caller := cs.Caller
 		if !p.InLibrary(caller) {
 			continue
 		}
 		n++
 		fc := a.Ctx(caller)
-		args := cs.Instr.Common().Args
 		cons := fmt.Sprintf("%s: context passed to the assertion parser", p.FnName(caller))
 		ok := true
 		var why []string
 		for i, prm := range m.AssertFn.Params {
-			if i == 0 || i >= len(args) {
+			arg := cs.Arg(i)
+			if i == 0 || arg == nil {
 				continue
 			}
 			ts := types.TypeString(prm.Type(), nil)
 			if ts == "[]string" || ts == "time.Time" {
-				pa, isParam := args[i].(*ssa.Parameter)
+				pa, isParam := arg.(*ssa.Parameter)
 				if !isParam || types.TypeString(pa.Type(), nil) != ts {
 					ok = false
-					why = append(why, fmt.Sprintf("argument %s is %s, not the caller's own parameter", prm.Name(), fc.AP(args[i])))
+					why = append(why, fmt.Sprintf("argument %s is %s, not the caller's own parameter", prm.Name(), fc.AP(arg)))
 				}
 			}
 		}
@@ -1017,6 +1154,10 @@ func constantInt(n int64) constant.Value { return constant.MakeInt64(n) }
 // callersValidated: at every static call site of fn the argument bound to prm was validated by the
 // round-trip validator (nil edge implied at the call).
 func callersValidated(p *Prog, a *Analysis, fn *ssa.Function, prm *ssa.Parameter) bool {
+	return callersValidatedN(p, a, fn, prm, 0)
+}
+
+func callersValidatedN(p *Prog, a *Analysis, fn *ssa.Function, prm *ssa.Parameter, depth int) bool {
 	idx := -1
 	for i, q := range fn.Params {
 		if q == prm {
@@ -1044,6 +1185,12 @@ func callersValidated(p *Prog, a *Analysis, fn *ssa.Function, prm *ssa.Parameter
 				if wrapped := readerBytes(call.Call.Args[0]); wrapped != nil && cfc.AP(wrapped) == want {
 					ok = true
 				}
+			}
+		}
+		if !ok {
+			// the caller is itself an unexported helper handed the bytes: its own callers validated them
+			if pa, isPar := arg.(*ssa.Parameter); isPar && depth < 3 && (cs.Caller.Object() == nil || !cs.Caller.Object().Exported()) {
+				ok = callersValidatedN(p, a, cs.Caller, pa, depth+1)
 			}
 		}
 		if !ok {
